@@ -164,7 +164,7 @@ def shards(tier):
 
 
 def run_shard(spec, ctx):
-    run_given(cases(), body, ctx, ctx.pick(190, 6000))
+    run_given(cases(), body, ctx, ctx.pick(190, 400))
 
 
 def replay(data, col):
